@@ -30,7 +30,9 @@ Call(chain, i, arg) ==       \* call into layer i (i = 0 is the handler)
 Invoke(chain, arg) == Call(chain, Len(chain), arg)
 VARIABLES ctor, prov, added, want
 vars == <<ctor, prov, added, want>>
-Init == ctor \in Lists(MaxLen) /\ prov \in Lists(MaxLen) /\ added \in Lists(1) /\ want = Invoke(Chain(ctor, prov, added), 1)
+\* AddMiddleware is called once - or, on an object without provider middleware (a processor), twice in a row
+Init == /\ ctor \in Lists(MaxLen) /\ prov \in Lists(MaxLen) /\ added \in Lists(2) /\ (Len(added) = 2 => prov = <<>>)
+        /\ want = Invoke(Chain(ctor, prov, added), 1)
 Next == UNCHANGED vars
 Spec == Init /\ [][Next]_vars
 R == want
@@ -57,6 +59,7 @@ AfterReuse(chain, otherProv, overwrite) == chain
 ChainIsAValue == Invoke(AfterReuse(Chain(ctor, prov, added), <<"obs", "obs">>, <<"obs">>), 1) = want
 \* the case list for the drivers
 AllCases == {[ctor |-> c, prov |-> p, added |-> a, want |-> Invoke(Chain(c, p, a), 1)] : c \in Lists(MaxLen), p \in Lists(MaxLen), a \in Lists(1)}
+            \cup {[ctor |-> c, prov |-> <<>>, added |-> a, want |-> Invoke(Chain(c, <<>>, a), 1)] : c \in Lists(MaxLen), a \in {x \in Lists(2) : Len(x) = 2}}
 ASSUME JsonSerialize("middleware_cases.json", SetToSeq(AllCases))
 ASSUME PrintT("CASES " \o ToString(Cardinality(AllCases)))
 =============================================================================
